@@ -169,6 +169,9 @@ type world struct {
 	terms     []*terminateCall
 	nextExec  int
 
+	invPaths      []string // override of the invocation path pool
+	fixedPriority bool
+
 	m *model
 }
 
@@ -295,7 +298,14 @@ func (w *world) stepExecute(instancePool []string) {
 	t := w.templates[rapid.IntRange(0, len(w.templates)-1).Draw(w.rt, "template")]
 	inst := rapid.SampledFrom(instancePool).Draw(w.rt, "instance")
 	prio := rapid.SampledFrom(priorities).Draw(w.rt, "priority")
-	inv := rapid.SampledFrom(invPaths).Draw(w.rt, "invocation")
+	paths := invPaths
+	if w.invPaths != nil {
+		paths = w.invPaths
+	}
+	inv := rapid.SampledFrom(paths).Draw(w.rt, "invocation")
+	if w.fixedPriority {
+		prio = 0
+	}
 	plan := &sizePlan{
 		ActionID:    fmt.Sprintf("x%d", w.nextExec),
 		Choice:      rapid.IntRange(0, 2).Draw(w.rt, "sizeChoice"),
